@@ -132,7 +132,14 @@ def hard_module_three_rectangles(S):
     if S.mode == "sym":
         # callees replaced by their contracts: Rectangle.overlap (C18: <=> common area > EA), create_stog (C06: only reorders / labels)
         S.patch(Rectangle, "overlap", lambda self, r: ovl(self, r) > EA)
-        S.patch(modmod, "create_stog", lambda rects: False)
+        # ... with an ARBITRARY verdict (changed after seed C05-11, which skipped the overlap check for recognised orthogons: two branches of
+        # an orthogon may overlap each other): the overlap check does not depend on what the recognition says
+        def stog_stub(rects):
+            yes = bool(S.symbool("recognised_as_orthogon"))
+            for i, r in enumerate(rects):       # the labelling part of the C06 contract: trunk first, every other rectangle on a side
+                r.location = (Rectangle.StogLocation.TRUNK if i == 0 else Rectangle.StogLocation.NORTH) if yes else Rectangle.StogLocation.NO_POLYGON
+            return yes
+        S.patch(modmod, "create_stog", stog_stub)
     out = S.call(Netlist, {"Modules": {"H": info}})
     rs = info["rectangles"]
     overlapping = sor(*[ovl_r(rs[i], rs[j]) > EA for i in range(3) for j in range(i + 1, 3)])
@@ -441,7 +448,11 @@ def _inject(rng, doc):
         m = d["Modules"][rng.choice([n for n in hard if len(d["Modules"][n]["rectangles"]) >= 2])]
         rs = m["rectangles"]
         i, j = rng.sample(range(len(rs)), 2)
-        rs[j] = [rs[i][0] + rs[i][2] / 4, rs[i][1] + rs[i][3] / 4, rs[j][2], rs[j][3]]      # rectangle j now overlaps rectangle i
+        if len(rs) >= 3 and rng.random() < 0.5:     # two BRANCHES overlap each other, both still sitting on the trunk (the module remains an orthogon)
+            i, j = rng.sample(range(1, len(rs)), 2)
+            rs[j] = [rs[i][0] + rs[i][2] / 4, rs[j][1], rs[j][2], rs[j][3]]
+        else:
+            rs[j] = [rs[i][0] + rs[i][2] / 4, rs[i][1] + rs[i][3] / 4, rs[j][2], rs[j][3]]      # rectangle j now overlaps rectangle i
     elif defect == "unknown_attribute":
         d["Modules"][rng.choice(names)]["colour"] = "red"
     elif defect == "rect_size_nonpositive" and [n for n in names if d["Modules"][n].get("rectangles")]:
